@@ -146,7 +146,7 @@ impl Prop for C13 {
     }
 
     fn cases(&self, tier: Tier) -> u32 {
-        tier.pick(640, 8_000)
+        tier.pick(640, 30_000)
     }
 
     fn confirm_in_fresh_process(&self) -> bool {
